@@ -265,13 +265,13 @@ theorem own_trans_full (s s' : CSt) (e : CEv) (a : Nat) (c c' : Con) (hs : cstep
     · rename_i he
       simp at hs
       subst he
-      exact fin s.b _ hs.symm (.awaitOk a v c hcond.1 hp)
+      exact fin s.b _ hs.symm (.awaitOk a v c hcond.1 hp hcond.2.1)
     · rename_i he
-      exact finX c v e hs (.awaitErr a v e c hcond.1 hp he)
+      exact finX c v e hs (.awaitErr a v e c hcond.1 hp he hcond.2.1)
   · simp only [cstep, h1] at hs
     split at hs <;> try simp at hs
     rename_i hcond
-    exact finX c 0 9 hs (.awaitCancel a c hcond.1 hcond.2)
+    exact finX c 0 9 hs (.awaitCancel a c hcond.1 hcond.2.2 hcond.2.1)
   · exact own_trans s s' _ a c c' hs h1 h2 (Or.inr (Or.inr (Or.inl ⟨v, x, rfl⟩)))
   · exact own_trans s s' _ a c c' hs h1 h2 (Or.inr (Or.inr (Or.inr (Or.inl rfl))))
   · simp only [cstep, h1] at hs
